@@ -529,12 +529,11 @@ pub(crate) async fn connect(spec: ConnectSpec) -> io::Result<crate::net::TcpStre
     let seed = w.cfg.seed;
     let chaos = spec.chaos.clone().unwrap_or_else(|| w.cfg.chaos.clone());
     let mut rng = Rng::derive(seed, &label);
-    let cap = |rng: &mut Rng, chaos: &Chaos| -> usize {
+    let cap = |_rng: &mut Rng, chaos: &Chaos| -> usize {
         if chaos.capacity > 0 {
             chaos.capacity
         } else {
-            const CAPS: [usize; 8] = [1, 7, 64, 1024, 4096, 65536, 262144, 1 << 20];
-            CAPS[rng.below(8) as usize]
+            1 << 20
         }
     };
     // the address the accepting side sees for the peer: a dual-stack (v6 wildcard)
